@@ -1113,8 +1113,9 @@ func c17Parallel(n, workers int, f func(i int)) {
 		go func() {
 			defer wg.Done()
 			for i := range ch {
+				tok := guardBegin()
 				f(i)
-				guardProgress.Add(1)
+				guardEnd(tok)
 			}
 		}()
 	}
